@@ -7,14 +7,18 @@ LEVEL = "proof"
 MANIFEST = {
     "technique": "Coq proof over a hand-written Gallina model of sei.WriteSEIMessages / sei.ExtractSEIData (on top of the C13 "
                  "EBSP writer/reader models) + differential correspondence (extracted OCaml vs Go) + round-trip search on the real code",
-    "level_text": "Theorems (coq/c17/C17Theorems.v): the 0xFF-run value code decodes to the written value for every value of the Go "
-                  "accumulator type; the writer model emits Write(b,8) for exactly the bytes of the plain serialisation; for every "
-                  "NON-EMPTY message list (any types < 2^64, any sizes < 2^32 equal to the payload length, any payload bytes) the "
-                  "extractor returns the (type, payload) list with no trailing-bits error. The empty list is outside the statement "
-                  "(writer emits 80, extractor rejects it) and is proved to behave so.",
-    "level_note": "Trusted: Coq kernel, extraction (ExtrOcamlBasic), OCaml/Go glue; the correspondence is differential testing. "
-                  "io.Writer failures and non-seekable readers are not modelled. The model's ReadBytes takes a shortcut when the "
-                  "announced size exceeds the whole input (error without looping).",
+    "level_text": "Theorems (coq/c17/C17Theorems.v), all closed under the global context: C17_sei_value_rt (0xFF-run code decodes to the "
+                  "written value for every value of the Go accumulator type), C17_writer_is_escape (the writer model's bytes are the "
+                  "emulation-prevented plain serialisation + 80), C17_list_roundtrip: for every NON-EMPTY message list (any types < 2^64, "
+                  "any sizes < 2^32 equal to the payload length, any payload bytes) extract_sei_data (write_sei_messages msgs) returns the "
+                  "(type, payload) list with no trailing-bits error, ON THE REAL ESCAPED BYTE STREAM through the C13 EBSP writer/reader "
+                  "models (composed with the C13 lemmas writer=escape, reader=bits of the unescaped input, MoreRbspData spec); the same at "
+                  "the rbsp level (C17_list_roundtrip_rbsp). The empty list is outside the statement (writer emits 80, extractor rejects "
+                  "it) and is proved to behave so.",
+    "level_note": "Every link of the list round trip is proved (no link left to the correspondence alone). Trusted: Coq kernel, "
+                  "extraction (ExtrOcamlBasic), OCaml/Go glue; the model/code correspondence is differential testing. io.Writer failures "
+                  "and non-seekable readers are not modelled. The model's ReadBytes takes a shortcut when the announced size exceeds the "
+                  "whole input (error without looping). Typed messages: see level_text_typed.",
 }
 
 
